@@ -7,6 +7,7 @@ import time
 
 from . import common
 from . import sched_graph as SG
+from . import sched_scenarios as SC
 from . import sched_model as M
 from .sched_common import Sim, choose_targets, gen_plan, run, with_before
 
@@ -408,8 +409,17 @@ def _projection_cases(ctx, hs):
     primitive is applied where the side condition of its flag-soundness theorem holds (run_ok_b), so
     C10_primitive_sequences_preserve_FlagInv_decidable applies to every real transaction."""
     checks, descr = [], []
+    # directed transactions (recycle branch of Trellis.create, take-over, after_recycle on a holding step,
+    # delete_detached with survivors): appended as extra histories
+    if getattr(ctx, "_c10_scen", None) is None:
+        ctx._c10_scen = [{"events": run(SC.scenario(v), timeout=120), "scenario": v[0]} for v in SC.VARIANTS]
+    hs = list(hs) + ctx._c10_scen
     for hi, h in enumerate(hs):
         for ei, ev in enumerate(h["events"]):
+            if "scenario" in h and "rejected" in ev:
+                ctx.add_failure("harness", "scenario", "scenario:rejected-step",
+                                f"directed scenario {h['scenario']}: transaction {ev['op']} {ev.get('args')} was rejected: "
+                                f"{ev['rejected']}", witness={"scenario": h["scenario"], "event": ei})
             if "error" in ev or "rejected" in ev:
                 # a rejected request is rolled back (flags included): nothing is projected.  Whether the
                 # transaction model rejects the same requests is C09's correspondence (targets, which
@@ -420,6 +430,8 @@ def _projection_cases(ctx, hs):
                 continue
             checks.append(SG.tx_case(ev, before, ev["after"], ops, M.to_coq))
             kind = ev["op"] + ((":" + ev["recycle"]) if ev.get("recycle") else "")
+            if "scenario" in h:
+                ctx.count("scenario_transactions")
             descr.append((kind, hi, ei))
             ctx.count("projection." + kind)
             ctx.case(("projection", ev["op"], repr(before), repr(ev.get("args")), ev.get("choice")), True)
@@ -451,7 +463,7 @@ def _projection_cases(ctx, hs):
             f"transaction {ev['op']} (event {ei} of history {hi}): {verdict}; projected primitives of the first "
             f"operation: {vals[1]}; rows of the model result that are not in the real tables / edges only in the "
             f"model / edges only in reality: {vals[2]}",
-            witness={"history": hi, "event": ei, "op": ev["op"], "args": ev.get("args"),
+            witness={"history": hi, "scenario": hs[hi].get("scenario"), "event": ei, "op": ev["op"], "args": ev.get("args"),
                      "operations": [list(x) for x in ops], "before": before, "after": ev["after"]})
 
 
